@@ -47,6 +47,8 @@ PInit ==
                 lastTurn |-> 0,    \* last step in which h had a turn
                 downs |-> {},      \* closed down intervals <<n, b>>: crashed at pstep n, bounced at pstep b
                 downAt |-> -1,     \* pstep of the crash if h is down now
+                tears |-> {},      \* <<n, w>>: h was crashed (while up) at pstep n; what its destructors sent, and
+                                   \* everything it had sent before, has arrived by step w
                 fpolls |-> -1, fsent |-> -1,   \* counters frozen at the crash
                 bound |-> {}]]     \* sockets ("tcp", "udp") the current incarnation has bound
     /\ pops = <<>>
@@ -81,13 +83,27 @@ P_StepBegin ==
 \* kind \in {"listen","ubind","connect","accept","read","write"}; c = the connection a
 \* connect / read / write works on (the program knows which stream it uses; the two ends
 \* of a connection are matched through the connector's port), 0 otherwise.
+SetMax(S) == CHOOSE x \in S : \A y \in S : y <= x
+SetMin(S) == CHOOSE x \in S : \A y \in S : x <= y
+\* Crashes of the other host that hit connection c after it was established (the connect
+\* that made c had returned ok).  A read on such a stream - also one that is started after
+\* the crash - is a peer waiting on a stream that was established at the crash instant: it
+\* must return (the remaining data, then end-of-file or a reset) once everything the dead
+\* side sent has arrived.
+DeadTears(st, h, c) ==
+    {t \in st.ph[Other(h)].tears :
+        \E p \in DOMAIN st.pops : st.pops[p].kind = "connect" /\ st.pops[p].c = c
+                                    /\ st.pops[p].res = "ok" /\ st.pops[p].rstep <= t[1]}
 PS_Cmd(st, id, h, inc, kind, c) ==
+    LET dt == IF kind = "read" /\ c # 0 THEN DeadTears(st, h, c) ELSE {}
+        dl == IF dt = {} THEN 0 ELSE SetMax({pstep + 1, SetMin({t[2] : t \in dt})})
+    IN
     [st EXCEPT
        !.pops = @ @@ (id :> [h |-> h, inc |-> inc, kind |-> kind, c |-> c, start |-> pstep,
                              lat |-> plat,      \* latency in force when it started (a connect sends its SYN then)
                              res |-> "pend", rstep |-> 0,
                              rlat |-> 0,        \* latency in force when it returned (a write sends its segment then)
-                             dl |-> 0]),
+                             dl |-> dl]),
        \* "none of its code runs ... until it is bounced"
        !.bad = @ \cup Flag(st.ph[h].up /\ st.ph[h].inc = inc, "StopsDead")]
 P_Cmd(id, h, inc, kind, c) ==
@@ -202,6 +218,11 @@ BounceDeadlines(p, h) ==
         IF p[o].res = "pend" /\ p[o].h = Other(h) /\ p[o].dl = 0 /\ p[o].kind = "write"
         THEN [p[o] EXCEPT !.dl = pstep + plat + 2] ELSE p[o]]
 
+\* the step by which everything h has sent so far, and what its destructors send now, has arrived
+ArrivedBy(h) ==
+    SetMax({pstep + plat} \cup {pops[o].rstep + pops[o].rlat :
+               o \in {q \in OpIds : pops[q].h = h /\ pops[q].kind = "write" /\ pops[q].res = "ok"}}) + 1
+
 \* operations of the dead incarnation never return
 Cancelled(p, h) ==
     [o \in DOMAIN p |-> IF p[o].h = h /\ p[o].res = "pend" THEN [p[o] EXCEPT !.res = "cancelled"] ELSE p[o]]
@@ -217,6 +238,7 @@ P_Crash(h, obs) ==
                                  "StopsDead")
          /\ UNCHANGED <<pstep, ph, pops, pdg, plat>>
     ELSE /\ ph' = [ph EXCEPT ![h].up = FALSE, ![h].downAt = pstep, ![h].bound = {},
+                             ![h].tears = @ \cup {<<pstep, ArrivedBy(h)>>},
                              ![h].fpolls = obs.polls[h], ![h].fsent = obs.sent[h]]
          /\ pops' = Cancelled(Deadlines(h), h)
          /\ bad' = bad
@@ -260,7 +282,7 @@ P_Twin(equal) ==
 P_Reset ==
     /\ pstep' = 0
     /\ ph' = [h \in Hosts |->
-               [up |-> TRUE, inc |-> 1, turned |-> FALSE, lastTurn |-> 0, downs |-> {}, downAt |-> -1,
+               [up |-> TRUE, inc |-> 1, turned |-> FALSE, lastTurn |-> 0, downs |-> {}, downAt |-> -1, tears |-> {},
                 fpolls |-> -1, fsent |-> -1, bound |-> {}]]
     /\ pops' = <<>> /\ pdg' = <<>> /\ plat' = LatSteps /\ bad' = {}
 
